@@ -96,6 +96,28 @@ class FakeFS:
         h.name = name
         return h
 
+    def mkstemp(self, suffix=None, prefix=None, dir=None, text=False):
+        """tempfile.mkstemp: an open descriptor on a new file in `dir` (default: the system temp directory, possibly another file system)"""
+        d = str(dir) if dir is not None else "/TMPDIR-possibly-another-filesystem"
+        self.n_tmp = getattr(self, "n_tmp", 0) + 1
+        name = os.path.join(d, f"{prefix or 'tmp'}{self.n_tmp:04d}{suffix or ''}")
+        h = self.open(name, "wb")
+        h.name = name
+        self.pending_fd = getattr(self, "pending_fd", {})
+        self.pending_fd[h.fd] = h
+        return h.fd, name
+
+    def fdopen(self, fd, mode="r", *a, **k):
+        h = getattr(self, "pending_fd", {}).pop(fd, None)
+        if h is None:
+            raise HarnessError("os.fdopen of a descriptor that mkstemp did not hand out")
+        return h
+
+    def close_fd(self, fd):
+        h = getattr(self, "pending_fd", {}).pop(fd, None)
+        if h is not None:
+            h.close()
+
     def move(self, src, dst, *a, **k):
         """shutil.move: os.rename when source and destination are on one file system, otherwise copy (open dst for writing,
         stream the data) and unlink the source. Different directories may be different file systems."""
@@ -225,9 +247,10 @@ class io_doubles:
         self.saved = sys.modules.get("dill")
         sys.modules["dill"] = fake_dill()
         fake_os = types.SimpleNamespace(fsync=self.fs.fsync, rename=self.fs.rename, replace=self.fs.replace, path=os.path,
-                                        remove=lambda p: self.fs.files.pop(str(p), None), fspath=os.fspath)
+                                        remove=lambda p: self.fs.files.pop(str(p), None), fspath=os.fspath, fdopen=self.fs.fdopen, close=self.fs.close_fd,
+                                        unlink=lambda p: self.fs.files.pop(str(p), None))
         fake_tempfile = types.SimpleNamespace(NamedTemporaryFile=self.fs.named_temporary_file, gettempdir=lambda: "/TMPDIR-possibly-another-filesystem",
-                                              mkstemp=lambda *a, **k: (_ for _ in ()).throw(HarnessError("tempfile.mkstemp is not modelled")))
+                                              mkstemp=self.fs.mkstemp)
         fake_shutil = types.SimpleNamespace(move=self.fs.move, copyfile=self.fs.move, copy=self.fs.move, copy2=self.fs.move)
         self.ctxs = [patched(core_mod, open=self.fs.open, os=fake_os, dill=sys.modules["dill"], tempfile=fake_tempfile, shutil=fake_shutil),
                      patched(sm_mod, open=self.fs.open, os=fake_os, dill=sys.modules["dill"], tempfile=fake_tempfile, shutil=fake_shutil)]
